@@ -183,6 +183,71 @@ def _pair():
     )
 
 
+# ---- object histories: equality / hash over objects obtained by any public route, interleaved with hashing ----------------------
+
+
+def check_history(ops) -> Info:
+    """ops: list of ('new', groups) | ('parse', groups) | ('cde', i) | ('hash', i) | ('copy', i) | ('str', i).
+    Model: every object is its group tuple. Invariant after every step, over all objects created so far:
+    == iff groups equal; equal => same hash; an object's hash never changes."""
+    import copy
+
+    objs = []  # (Obis, expected groups, first observed hash or None)
+    derived = hashed_before_derive = False
+    for step, op in enumerate(ops):
+        kind = op[0]
+        if kind == "new":
+            objs.append([Obis(tuple(op[1])), tuple(op[1]), None])
+        elif kind == "parse":
+            g = tuple(op[1])
+            objs.append([guarded(Obis.from_string, fmt_reduced(g), what="Obis.from_string"), g, None])
+        elif objs:
+            i = op[1] % len(objs)
+            o, g, h = objs[i]
+            if kind == "cde":
+                d = guarded(o.filter_group_cde, what="filter_group_cde")
+                objs.append([d, (None, None, g[2], g[3], g[4], None), None])
+                derived = True
+                hashed_before_derive |= h is not None
+            elif kind == "copy":
+                objs.append([copy.copy(o), g, None])
+            elif kind == "hash":
+                hv = guarded(hash, o, what="hash(Obis)")
+                if h is not None and hv != h:
+                    fail(f"step {step}: hash of Obis{g!r} changed from {h} to {hv}", sig="hash-unstable")
+                objs[i][2] = hv
+            elif kind == "str":
+                guarded(str, o, what="str(Obis)")
+                guarded(o.to_reduced_str)
+        # invariant over the newest object against all others (pairs among older ones were checked before)
+        if objs:
+            o, g, _ = objs[-1]
+            if tuple(o.as_tupple()) != g:
+                fail(f"step {step} ({kind}): object has groups {o.as_tupple()!r}, expected {g!r}", sig="history-groups")
+            for o2, g2, _h2 in objs:
+                eq = guarded(o.__eq__, o2, what="Obis == Obis")
+                if eq != (g == g2):
+                    fail(f"step {step} ({kind}): Obis{g!r} == Obis{g2!r} is {eq}", sig="history-eq")
+                if g == g2 and guarded(hash, o, what="hash(Obis)") != guarded(hash, o2, what="hash(Obis)"):
+                    fail(f"step {step} ({kind}): equal objects Obis{g!r} (route: {kind}) hash differently; ops so far {ops[: step + 1]!r}", sig="history-hash")
+            if len({x[0] for x in objs}) != len({x[1] for x in objs}):
+                fail(f"step {step}: a set of the objects has {len({x[0] for x in objs})} members, their group tuples {len({x[1] for x in objs})}", sig="history-set")
+    return Info(nontrivial=derived and hashed_before_derive, classes=("derived-after-hash" if derived and hashed_before_derive else ("derived" if derived else "no-derivation"),))
+
+
+_hist_op = st.one_of(
+    st.tuples(st.just("new"), groups_st),
+    st.tuples(st.just("parse"), groups_st),
+    st.tuples(st.just("cde"), st.integers(0, 7)),
+    st.tuples(st.just("cde"), st.integers(0, 7)),
+    st.tuples(st.just("hash"), st.integers(0, 7)),
+    st.tuples(st.just("hash"), st.integers(0, 7)),
+    st.tuples(st.just("copy"), st.integers(0, 7)),
+    st.tuples(st.just("str"), st.integers(0, 7)),
+)
+history_st = st.lists(_hist_op, min_size=1, max_size=12)
+
+
 # ---- malformed strings ------------------------------------------------------------
 
 _DDD = re.compile(r"\d\.\d")
@@ -229,7 +294,9 @@ def build() -> Check:
             "groups: all 16 presence patterns of A,B,E,F x every group in {0,1,9,10,99,100,255} enumerated completely "
             "(200 704 tuples), plus Hypothesis-drawn tuples over 0..255 with optional zero padding; formatted by the "
             "harness in reduced and six-part syntax. Non-trivial = A and B both present, or F present, or a group equal "
-            "to 0 or 255. pairs: two tuples differing in <=1 group count as non-trivial. malformed: token strings with "
+            "to 0 or 255. object-histories: operation lists (create from groups, parse, filter_group_cde, copy, hash, str) over a pool of objects with "
+            "the invariant '== iff groups equal, equal => equal hash, hash stable' after every step; non-trivial = an object derived from "
+            "one that had already been hashed. pairs: two tuples differing in <=1 group count as non-trivial. malformed: token strings with "
             "every digit-dot-digit broken by construction; non-trivial = contains a dot and a digit. Distinct = distinct "
             "case hash."
         ),
@@ -243,5 +310,6 @@ def build() -> Check:
             HypClause("groups", st.tuples(groups_st, st.sampled_from([0, 0, 2, 3])), check_groups, quick=20000, thorough=300000),
             HypClause("pairs", _pair, check_pair, quick=20000, thorough=200000),
             HypClause("malformed", malformed_st, check_malformed, quick=20000, thorough=300000),
+            HypClause("object-histories", history_st, lambda ops: check_history([tuple(o) for o in ops]), quick=8000, thorough=150000, doc="equality/hash invariants over objects created, parsed, derived (filter_group_cde), copied and hashed in any order"),
         ],
     )
